@@ -123,6 +123,9 @@ func Explore(prog *ssa.Program, pkg *ssa.Package, fn *ssa.Function, opts Explore
 			active++
 			mu.Unlock()
 
+			mu.Lock()
+			m.WantModel = len(st.Samples) < opts.SampleN // a model of the whole path only for the sampled paths
+			mu.Unlock()
 			res, forks := m.RunPath(pkg, fn, it.prefix)
 
 			mu.Lock()
@@ -211,7 +214,11 @@ func Explore(prog *ssa.Program, pkg *ssa.Package, fn *ssa.Function, opts Explore
 	}
 	n := opts.Workers
 	if n <= 0 {
-		n = runtime.NumCPU()
+		// each worker drives its own solver process, so half the cores run interpreters
+		n = runtime.NumCPU() / 2
+		if n < 1 {
+			n = 1
+		}
 	}
 	var wg sync.WaitGroup
 	for i := 0; i < n; i++ {
@@ -339,7 +346,7 @@ func (m *Machine) RunPath(pkg *ssa.Package, fn *ssa.Function, prefix []Decision)
 	res.VCs, res.VCsUnsat = p.VCs, p.VCsUnsat
 	res.Observes = p.Observes
 	res.Taken = p.Taken
-	if res.Abort == "" || res.Abort == "done" {
+	if m.WantModel && (res.Abort == "" || res.Abort == "done") {
 		if r, mod := m.ModelOfPath(); r == smt.Sat {
 			res.Model = mod
 		}
